@@ -169,6 +169,21 @@ func sequenceScenario(logN, residual int, first seqKind) engine.Scenario {
 		}
 		gotFresh, oFresh := run(fresh, b)
 		cp := used.ShallowCopy()
+		// "all the read-only data-structures are shared with the receiver and the temporary buffers are reallocated. The
+		// receiver and the returned Evaluator can be used concurrently" (ShallowCopy doc): every sub-evaluator of the copy
+		// must therefore run on the copy's own ckks.Evaluator (whose buffers are fresh), none on the receiver's.
+		for _, sub := range []struct {
+			name string
+			ev   *ckks.Evaluator
+		}{{"DFTEvaluator", cp.DFTEvaluator.Evaluator}, {"Mod1Evaluator", cp.Mod1Evaluator.Evaluator}} {
+			if sub.ev != cp.Evaluator || sub.ev == used.Evaluator {
+				c.Fail("C18/copy/ShallowCopy-sub-evaluator-runs-on-the-receiver's-buffers", "%s: copy.%s is built on %s", name, sub.name,
+					map[bool]string{true: "the receiver's ckks.Evaluator", false: "an evaluator that is not the copy's own"}[sub.ev == used.Evaluator])
+			}
+		}
+		if cp.Evaluator == used.Evaluator || cp.Evaluator.Evaluator == used.Evaluator.Evaluator || cp.Evaluator.GetBuffCt() == used.Evaluator.GetBuffCt() {
+			c.Fail("C18/copy/ShallowCopy-shares-evaluator-buffers", "%s: the copy's ckks/rlwe evaluator or its BuffCt is the receiver's", name)
+		}
 		gotCopy, oCopy := run(cp, b)
 		gotAgain, oAgain := run(used, b)
 		tag := fmt.Sprintf("%s then %s", first.name, second.name)
